@@ -86,7 +86,8 @@ TagReqs(t) ==
 
 UnknownReqs == { R("read", 0, "sym", 0 - 1, 1, 0, T1, <<>>, <<>>),
                  R("write", 0, "sym", 0, 1, 0, T1, ValSeq(T1, 1, 1), <<>>),
-                 R("gal", 0, "noinst", 0 - 1, 0, 0, T1, <<>>, <<>>) @@ [attrs |-> <<1>>], R("gaa", 0, "noclass", 0 - 1, 0, 0, T1, <<>>, <<>>) }
+                 R("gal", 0, "noinst", 0 - 1, 0, 0, T1, <<>>, <<>>) @@ [attrs |-> <<1>>], R("gaa", 0, "noclass", 0 - 1, 0, 0, T1, <<>>, <<>>),
+                 R("gas", 0, "class0", 0 - 1, 0, 0, T1, <<>>, <<>>) }
                \cup UNION { { R("read", 0, md, ix, 1, 0, T1, <<>>, <<>>), R("write", 0, md, ix, 1, 0, T1, ValSeq(T1, 1, 1), <<>>),
                              R("readf", 0, md, ix, 1, 0, T1, <<>>, <<>>) } : md \in {"noinst", "noclass"}, ix \in {0 - 1, 0} }
 
@@ -126,6 +127,8 @@ CoreOf(t) ==
 CoreReqs == CoreOf(1) \cup CoreOf(3) \cup { R("read", 0, "sym", 0 - 1, 1, 0, T1, <<>>, <<>>) }
             \* members addressed numerically to an instance that does not exist (attribute 1 exists in @2/1: must not be served from there)
             \cup { R("read", 0, "noinst", 0 - 1, 1, 0, T1, <<>>, <<>>), R("write", 0, "noinst", 0, 1, 0, T1, ValSeq(T1, 1, 1), <<>>) }
+            \* a member for the CLASS level (instance 0) of the Message Router: attribute number 1 exists in @2/1 as a tag, must not be served from there
+            \cup { R("gas", 0, "class0", 0 - 1, 0, 0, T1, <<>>, <<>>) }
             \* members for the tag living in another instance of the Message Router's class
             \cup (IF Many \/ ~Foreign THEN {} ELSE { R("read", 2, "sym", 0 - 1, 1, 0, T1, <<>>, <<>>), R("write", 2, "sym", 0 - 1, 1, 0, T1, ValSeq(T1, 1, 2), <<>>) })
             \cup (IF Many \/ ~Foreign \/ Size(MCfg.tags[4].type) = 0 THEN {} ELSE { R("gas", 4, "cia", 0 - 1, 0, 0, MCfg.tags[4].type, <<>>, <<>>) })
